@@ -149,9 +149,10 @@ class Array(Dom):
 class HeapCompiler(Dom):
     """`self` of an ExcelCompiler method in heap mode: cell_map and dep_graph are abstract (A-NX)"""
 
-    def __init__(self, cycles=False, building=False, evaluating=None):
+    def __init__(self, cycles=False, building=False, evaluating=None, trimming=False):
         self.cycles = cycles
         self.building = building     # graph construction: cell_map membership, graph_todos and edges are mutable heap state
+        self.trimming = trimming     # trim_graph: cell_map membership is mutable heap state
         self.evaluating = evaluating   # evaluation: list of frame clauses that hold across nested evaluations (self.eval)
 
 
@@ -215,7 +216,8 @@ class Contract:
                  returns=None, modular=(), name=None, closure_env=None,
                  decreases=None, invariants=None, notes='', bound_args=None,
                  klass='PROVED', frame=None, when=None, free_vars=(),
-                 native_call=None, apply_decorators=False, heap=False, effects=None, record=False, ghost=(), prepare=None):
+                 native_call=None, apply_decorators=False, heap=False, effects=None, record=False, ghost=(), prepare=None,
+                 modifies=None, heap_sets=(), ghost_before_loop=None):
         self.target = target
         self.prop = prop
         self.params = params
@@ -241,6 +243,9 @@ class Contract:
         self.record = record        # record mode: ensures see the live objects, old(x) the entry snapshot
         self.ghost = tuple(ghost)   # ghost counters (symbolic ints) of this contract
         self.prepare = prepare      # engine-level callable(vr, interp, closure, byname) run before the call
+        self.modifies = modifies    # heap mode: the heap fields the function may change (None: any); checked and used
+        self.heap_sets = tuple(heap_sets)      # locals `x = set()` of addresses that are kept as heap fields
+        self.ghost_before_loop = ghost_before_loop or {}    # loop ordinal -> engine-level ghost action before the loop
 
 
 class Lemma:
